@@ -120,6 +120,8 @@ type Exec struct {
 	loopNodes []ast.Stmt // enclosing loops of the statement being executed (outermost first)
 	curPos    token.Pos  // position of the statement / call being executed
 	anchorOrd map[*ast.CallExpr]int
+	sendOrd   map[*ast.SendStmt]int
+	sendCnt   map[string]int
 	anchorCnt map[string]int
 	anchorsHit map[string]bool // call anchors (before@/after@) that matched at least one call site
 	litEscapes bool // some function literal of this function may be retained and invoked later
